@@ -178,6 +178,16 @@ func readSupports(o *Outcome, algo, text string, want map[string]supWant, ctx st
 	}
 	keys, _ := nodeSplits(om)
 	got := map[string]float64{}
+	// whatever branch a support is written on (the branch above a root child whose split is trivial included), it is a number in [0,1]
+	for _, x := range om.all() {
+		if x.IsTip() || x.Parent == nil || x.Label == "" {
+			continue
+		}
+		if v, err := strconv.ParseFloat(x.Label, 64); err != nil || math.IsNaN(v) || v < 0 || v > 1 {
+			o.Fail(algo+":range", "a branch carries the support %q, which is not a number in [0,1]\n%s\n  out %s", x.Label, ctx, text)
+			return nil
+		}
+	}
 	for _, x := range om.all() {
 		k, ok := keys[x]
 		if !ok {
